@@ -65,3 +65,11 @@ Print Assumptions c14_c_data_safe.
 Theorem c14_c_ctrl_safe : forall pending d, cr_unsafe (c_ctrl_rsp pending d) = false.
 Proof. exact c_ctrl_rsp_safe. Qed.
 Print Assumptions c14_c_ctrl_safe.
+
+(* a refused command - negative status, whatever the verb and the arguments - changes nothing at all: not the addressed
+   transceiver, not any other, not the pending random draws (checked on the implementation after every refused or ignored
+   control datagram of every session: state digest before = state digest after) *)
+Theorem c14_refused_no_effect : forall w i req draws w' rc ex d', (i < length (w_trx w))%nat ->
+  parse_cmd w i req draws = (w', CStatus rc ex, d') -> rc < 0 -> w' = w /\ d' = draws.
+Proof. exact refused_no_effect. Qed.
+Print Assumptions c14_refused_no_effect.
